@@ -298,6 +298,42 @@ func runC03(o *cli.Opts, run *evid.Run) {
 			}
 		})
 	})
+	// insertion deeper than 32 levels compiles (there is no depth cap); a start index that does not fit 32 bits has no
+	// on-chain packing at all, so no public input may make the circuit accept it
+	if key := "C03/ins/d=33/b=1/index-range"; run.Wants(key) {
+		if ccs, err := prover.BuildR1CSInsertion(33, 1); err == nil {
+			sys := rmon.Wrap(ccs)
+			r := gen.RNG(o.Seed, key)
+			for i, start := range []*big.Int{new(big.Int).Add(two32, big.NewInt(5)), new(big.Int).Set(two32), new(big.Int).Sub(new(big.Int).Lsh(big.NewInt(1), 33), big.NewInt(1))} {
+				t := ref.NewTree(33, ref.H2)
+				t.Set(5, gen.NonZeroElem(r, ref.R))
+				t.Set(start.Uint64()-1, gen.NonZeroElem(r, ref.R))
+				id := gen.NonZeroElem(r, ref.R)
+				pre, path := t.Root(), t.Path(start.Uint64())
+				t.Set(start.Uint64(), id)
+				post := t.Root()
+				for hk, h := range []*big.Int{ref.HashToField(ref.PackInsertion(low32(start), pre, post, []*big.Int{id})), gen.Below(r, ref.R)} {
+					as := &prover.InsertionMbuCircuit{InputHash: h, StartIndex: start, PreRoot: pre, PostRoot: post, IdComms: assign([]*big.Int{id}), MerkleProofs: assignss([][]*big.Int{path})}
+					res := sys.Solve(as, nil)
+					if res.Accepted {
+						run.Violate(fmt.Sprintf("%s/%d/%d", key, i, hk), fmt.Sprintf("insertion circuit of depth 33 accepts start index 0x%s, which has no uint32 packing (public input = hash of its low 32 bits: %v)", start.Text(16), hk == 0), nil)
+					}
+					run.Case("ins/index-beyond-uint32", true, fmt.Sprintf("%s/%d/%d", key, i, hk), res.Accepted, map[string]any{"depth": 33, "start": "0x" + start.Text(16)})
+				}
+			}
+			// sanity: a start index that fits is accepted at this depth
+			t := ref.NewTree(33, ref.H2)
+			id := gen.NonZeroElem(r, ref.R)
+			start := big.NewInt(7)
+			pre, path := t.Root(), t.Path(7)
+			t.Set(7, id)
+			post := t.Root()
+			as := &prover.InsertionMbuCircuit{InputHash: ref.HashToField(ref.PackInsertion(7, pre, post, []*big.Int{id})), StartIndex: start, PreRoot: pre, PostRoot: post, IdComms: assign([]*big.Int{id}), MerkleProofs: assignss([][]*big.Int{path})}
+			if res := sys.Solve(as, nil); !res.Accepted {
+				run.Violate(key+"/sanity", "insertion circuit of depth 33 rejects a valid insertion at index 7: "+trim(res.Err), nil)
+			}
+		}
+	}
 	run.Require("valid batches accepted with the canonical hash", run.ClassTally("ins/canonical").Accepted+run.ClassTally("del/canonical").Accepted, 8)
 	run.Require("forged v+k*r decompositions fired", run.GetInt("forged_vkr_fired"), 20)
 	run.Require("forged decompositions of the value 0", run.GetInt("forged_zero_fired"), 1)
